@@ -350,7 +350,7 @@ static void run_scenario(jval *sc)
 			fprintf(out, "\"p\":[");
 			for (int t = 1; t <= nslots; t++) fprintf(out, "%s%d", t > 1 ? "," : "", snap_mode ? 0 : probe_slot(t));
 			fprintf(out, "],");
-			r = event_base_loop(base, EVLOOP_NONBLOCK | EVLOOP_NO_EXIT_ON_EMPTY);
+			r = event_base_loop(base, EVLOOP_ONCE | EVLOOP_NONBLOCK | EVLOOP_NO_EXIT_ON_EMPTY);
 			fprintf(out, "\"r\":%ld,\"nw\":%d,\"k\":%s,\"rep\":[%.*s],\"cb\":[%.*s]", r, nwaits, nwaits ? kbuf : "\"nowait\"",
 			    (int)rlen, rbuf, (int)clen, cbuf);
 		} else {
